@@ -180,8 +180,8 @@ def run(idx, rep, tier):
     # ---- R2/R3 generated
     seed = rep.seed
     rnd = random.Random(1000 + seed)
-    n_ast = 260 if tier == "thorough" else 90
-    n_layout = 4 if tier == "thorough" else 2
+    n_ast = 800 if tier == "thorough" else 90
+    n_layout = 6 if tier == "thorough" else 2
     bad2 = bad3 = bad1 = None
     built = 0
     g = Gen(rnd)
